@@ -265,6 +265,10 @@ def check_fit_emit(ctx, replay, out):
     for kk in ("uStart", "uEnd"):
         if rel.get(kk) is not None:
             ctx.count("fit emit: unplaced %s half well-formed over the loop: %s" % ("start" if kk == "uStart" else "end", rel[kk]))
+    if rel.get("coherent") is not None:
+        # candidate key invariant of fit_emits_valid_payload (lean/PM/Fitter.lean `FitState.coherentB`): frontier[i].match is the
+        # automaton state after the children placed at level i — evaluated after every iteration
+        ctx.count("fit emit: frontier coherent with placed over the loop (%s slice): %s" % (cls, rel["coherent"]))
     if g.get("kind") in ("replace", "around"):
         ctx.count("fit emit: %s slice -> %s, StepWF=%s" % (cls, g["kind"], g.get("wf")))
         if g.get("left") is not True:
